@@ -209,10 +209,66 @@ func RSub(c *core.Ctx) {
 	enumFn := p.LookupFunc("syntax", "mayOverlapByEnumeration")
 	hasSub := p.LookupFunc("syntax", "CharSet.HasSubtraction")
 	if enumFn != nil && hasSub != nil {
+		// which parameter is walked through its ranges: read it off the callee (a refactoring may swap them)
+		enumIdx := 1
+		rngF := p.LookupField("syntax", "CharSet", "ranges")
+		if ed, _ := p.DeclOf(enumFn); ed != nil && ed.Type.Params != nil && rngF != nil {
+			var prms []types.Object
+			for _, f := range ed.Type.Params.List {
+				for _, id := range f.Names {
+					prms = append(prms, info.ObjectOf(id))
+				}
+			}
+			ast.Inspect(ed.Body, func(n ast.Node) bool {
+				var x ast.Expr
+				switch l := n.(type) {
+				case *ast.RangeStmt:
+					x = l.X
+				case *ast.CallExpr:
+					if id, ok := l.Fun.(*ast.Ident); ok && id.Name == "len" && len(l.Args) == 1 {
+						x = l.Args[0]
+					}
+				}
+				if x != nil && core.FieldOf(info, x) == rngF {
+					if sel, ok := ast.Unparen(x).(*ast.SelectorExpr); ok {
+						if id, ok := ast.Unparen(sel.X).(*ast.Ident); ok {
+							for k, po := range prms {
+								if info.ObjectOf(id) == po {
+									enumIdx = k
+								}
+							}
+						}
+					}
+				}
+				return true
+			})
+		}
+		// a predicate method that includes "no subtraction" (isEnumerable: !HasSubtraction() && no categories)
+		impliesNoSub := func(fn *types.Func) bool {
+			d, _ := p.DeclOf(fn)
+			if d == nil || d.Body == nil || len(d.Body.List) != 1 {
+				return false
+			}
+			rs, ok := d.Body.List[0].(*ast.ReturnStmt)
+			if !ok || len(rs.Results) != 1 {
+				return false
+			}
+			for _, cj := range conjuncts(rs.Results[0]) {
+				if u, ok := ast.Unparen(cj).(*ast.UnaryExpr); ok && u.Op == token.NOT {
+					if hc, ok := ast.Unparen(u.X).(*ast.CallExpr); ok && core.IsCallTo(info, hc, hasSub) {
+						return true
+					}
+				}
+			}
+			return false
+		}
 		for _, fd := range p.FuncDecls(syn) {
 			for i, call := range core.CallsIn(info, fd.Body, enumFn) {
 				g := core.NewGraph(info, fd.Body)
-				arg := types.ExprString(call.Args[1])
+				if enumIdx >= len(call.Args) {
+					continue
+				}
+				arg := types.ExprString(call.Args[enumIdx])
 				ok := false
 				if b, _ := g.BlockOf(call); b != nil {
 					for _, f := range g.FactsAt(b) {
@@ -225,6 +281,13 @@ func RSub(c *core.Ctx) {
 							if hc, isC := e.(*ast.CallExpr); isC && core.IsCallTo(info, hc, hasSub) && !val {
 								if types.ExprString(hc.Fun.(*ast.SelectorExpr).X) == arg {
 									ok = true
+								}
+							}
+							if hc, isC := e.(*ast.CallExpr); isC && val {
+								if fn := core.Callee(info, hc); fn != nil && impliesNoSub(fn) {
+									if sel, isS := hc.Fun.(*ast.SelectorExpr); isS && types.ExprString(sel.X) == arg {
+										ok = true
+									}
 								}
 							}
 						}
